@@ -696,6 +696,13 @@ Proof.
   - discriminate H.
   - discriminate H.
   - discriminate H.
+  - bind_as H uu EU. unfold router_loan_f in H. destruct (f =? 0).
+    + unfold router_loan in H. bind_as H uu2 EH. apply W_of_Q.
+      eapply flash_loan_Q in H; eauto; [apply H|]. intros s1 s2 I1 HB. eapply router_body_Q; eauto.
+    + bind_as H ab' EX. pose proof (Q_xfer _ _ _ _ _ _ I EX) as Q1.
+      unfold router_loan in H. bind_as H uu2 EH. apply W_of_Q. eapply Q_trans; [exact Q1|].
+      assert (I1 : Inv (set_ab st ab')) by apply Q1.
+      eapply flash_loan_Q in H; eauto; [apply H|]. intros s1 s2 I2 HB. eapply router_body_Q; eauto.
 Qed.
 
 Lemma step_good st o st' : Good st -> op_unnested o = true -> step st o = Ok st' -> Good st' /\ PM st st'.
@@ -739,6 +746,20 @@ Proof.
   - discriminate H.
   - discriminate H.
   - discriminate H.
+  - bind_as H uu EU. unfold router_loan_f in H.
+    assert (HL : forall st0, Good st0 -> router_loan u z pre s st0 = Ok st' -> Good st' /\ PM st0 st').
+    { intros st0 G0 H0. pose proof G0 as (I0 & S0 & C0). unfold router_loan in H0. bind_as H0 uu2 EH.
+      pose proof (good_backing _ G0) as HT.
+      assert (HB : forall s1 s2, Inv s1 -> router_body u z pre s s1 = Ok s2 -> Q s1 s2 /\ LF s1 s2).
+      { intros s1 s2 I1 HB. pose proof (router_body_Q _ _ _ _ _ _ I1 HB) as [HQ HL]. split; auto. }
+      pose proof (loan_settles _ _ _ _ _ HB I0 H0) as (Hbal & _ & _ & Hp & Hc & Hsup & HQ & Hff).
+      split.
+      + split; [apply HQ|]. split; [unfold Solvent in *; lia | lia].
+      + apply PM_of; auto; [unfold backing in *; lia|]. eapply Q_supply_pos; eauto. }
+    destruct (f =? 0); [apply HL; auto|].
+    bind_as H ab' EX. apply ensure_ok' in EU. apply is_user_ne in EU as (Hv & _).
+    pose proof (good_xfer_in _ _ _ _ _ _ G Hv EX) as [G1 P1].
+    destruct (HL _ G1 H) as [G2 P2]. split; [exact G2|]. eapply PM_trans; eauto.
 Qed.
 
 (* ---- histories -------------------------------------------------------------- *)
